@@ -1711,8 +1711,11 @@ def validate_extra(ctx):
         ("clifford-approx", lambda: clifford_approx_extra(ctx, mod("quri_parts.circuit.transpile"))),
         ("factory-alias", lambda: factory_alias_check(ctx)),
     ]
+    import warnings
+
     for name, fn in steps:
-        with ctx.timed("extra." + name):
+        with ctx.timed("extra." + name), warnings.catch_warnings():
+            warnings.simplefilter("ignore", RuntimeWarning)  # numpy's divide / invalid-value notices on the NaN paths of the real code
             try:
                 fn()
             except (AttributeError, ImportError) as e:  # a public entry point the check relies on is gone / renamed
